@@ -1530,7 +1530,7 @@ def run(ctx):
     else:
         cases = load_corpus()
         scale = 4 if ctx.thorough() else 1
-        plan = [("route", 80), ("content", 60), ("abn", 90), ("conc", 36), ("weird", 24)]
+        plan = [("route", 70), ("content", 60), ("abn", 80), ("conc", 32), ("weird", 24)]
         for kind, n in plan:
             for _ in range(n * scale):
                 c = gen_case(rng, 0, kind)
@@ -1539,7 +1539,7 @@ def run(ctx):
                     if kind == "conc" and rng.random() < 0.6:
                         assign_faults(rng, c, 0.3)
                 cases.append(c)
-        for _ in range(90 * scale):
+        for _ in range(80 * scale):
             cases.append(gen_fault_case(rng, 0))
         for _ in range(scale):
             cases += gen_teefault_cases(rng)
@@ -1622,7 +1622,8 @@ def run(ctx):
             okk = sorted(got_text.split("\n")) == want
         else:                            # one line per record: the same records, each whole
             want = sorted(want_records)
-            okk = sorted(l + "\n" for l in got_text.split("\n") if l != "") == want and (got_text == "" or got_text.endswith("\n"))
+            pieces = got_text.split("\n")       # a record may be the bare newline (no level, no target, no field)
+            okk = pieces[-1] == "" and sorted(l + "\n" for l in pieces[:-1]) == want
         if not okk:
             rep.violation("TestWriter did not print exactly the records routed to it (one whole record per print)",
                           {"case": {k: b[k] for k in CASE_KEYS if k in b}, "twin_case": {k: a[k] for k in CASE_KEYS if k in a},
@@ -1665,9 +1666,11 @@ def run(ctx):
                         parts.append("eval_direct_f %s %s %s %s" % (W, COQ_METHOD[sp[2]], B(sp[1]), coq_plan((c.get("plans") or {}).get(plan_key(sp)))))
             term = " ++ ".join("(%s)" % p_ for p_ in parts) if parts else "(@nil (N*N*N*N))"
             terms.append(((cid, t), term))
+    ctx.log("oracle done; evaluating the model on %d thread programs" % len(terms))
     model = None
     try:
         model = coq_eval(ctx, requires, terms, tag="c13cases")
+        ctx.log("model evaluated")
     except Exception as ex:
         rep.tie("model-eval", False, str(ex)[:400])
     if model is not None:
